@@ -25,10 +25,11 @@ def prepare(case):
     for f in expr["facs"]:
         ix = list(f["ix"])
         t = proj.build_tensor(case["ops"][f["t"]], [v.upper() for v in ix], shape=[ext[v] for v in ix], name=f["t"])
-        if tile and tile["v"] in ix:
-            t = t.splitUniform(tile["s"], rankid=tile["v"].upper())
-            k = ix.index(tile["v"])
-            ix = ix[:k] + [tile["v"] + "1", tile["v"] + "0"] + ix[k + 1:]
+        for tl in (tile, case.get("tile2") or {}):         # tile2: a second, non-output variable tiled as well (operands of four ranks)
+            if tl and tl["v"] in ix:
+                t = t.splitUniform(tl["s"], rankid=tl["v"].upper())
+                k = ix.index(tl["v"])
+                ix = ix[:k] + [tl["v"] + "1", tl["v"] + "0"] + ix[k + 1:]
         want = [v for v in order if v in ix]
         if want != ix:
             t = t.swizzleRanks([rid(v) for v in want])
